@@ -65,7 +65,8 @@ type access struct {
 	write bool
 	locks []lockHeld
 	pos   string
-	send  bool // a channel send on the field (section_table only)
+	send  bool     // a channel send on the field (section_table only)
+	after []string // goroutines this function had already started (go statements earlier in source order)
 }
 
 type funcInfo struct {
@@ -81,6 +82,7 @@ type funcInfo struct {
 type callSite struct {
 	callee string
 	locks  []lockHeld
+	after  []string
 }
 
 var (
@@ -278,15 +280,18 @@ func isMutexField(info *types.Info, sel *ast.SelectorExpr) (string, bool) {
 }
 
 type walker struct {
-	fi    *funcInfo
-	held  []lockHeld
-	wroot map[ast.Expr]bool // selector expressions that are written
+	fi      *funcInfo
+	held    []lockHeld
+	wroot   map[ast.Expr]bool // selector expressions that are written
+	spawned []string          // goroutine bodies started so far by this function, in source order
 }
+
+func (w *walker) copySpawned() []string { return append([]string(nil), w.spawned...) }
 
 func (w *walker) copyHeld() []lockHeld { return append([]lockHeld(nil), w.held...) }
 
 func (w *walker) record(loc string, write bool, pos token.Pos) {
-	w.fi.accesses = append(w.fi.accesses, access{fn: w.fi.name, loc: loc, write: write, locks: w.copyHeld(), pos: fset.Position(pos).String()})
+	w.fi.accesses = append(w.fi.accesses, access{fn: w.fi.name, loc: loc, write: write, locks: w.copyHeld(), pos: fset.Position(pos).String(), after: w.copySpawned()})
 }
 
 // base selector of an lvalue like x.f, x.f[k], x.f.g
@@ -372,7 +377,7 @@ func (w *walker) callEffect(call *ast.CallExpr) {
 				}
 			}
 			if obj, ok := info.Uses[id].(*types.Func); ok && obj.Pkg() != nil && strings.HasPrefix(obj.Pkg().Path(), module) {
-				w.fi.calls = append(w.fi.calls, callSite{callee: relPkg(obj.Pkg()) + "." + obj.Name(), locks: w.copyHeld()})
+				w.fi.calls = append(w.fi.calls, callSite{callee: relPkg(obj.Pkg()) + "." + obj.Name(), locks: w.copyHeld(), after: w.copySpawned()})
 			}
 		}
 		return
@@ -420,16 +425,16 @@ func (w *walker) callEffect(call *ast.CallExpr) {
 		}
 		if fn.Pkg() != nil && strings.HasPrefix(fn.Pkg().Path(), module) && recvNamed != nil {
 			if _, isIface := recvNamed.Underlying().(*types.Interface); !isIface {
-				w.fi.calls = append(w.fi.calls, callSite{callee: relPkg(fn.Pkg()) + "." + recvNamed.Obj().Name() + "." + fn.Name(), locks: w.copyHeld()})
+				w.fi.calls = append(w.fi.calls, callSite{callee: relPkg(fn.Pkg()) + "." + recvNamed.Obj().Name() + "." + fn.Name(), locks: w.copyHeld(), after: w.copySpawned()})
 			} else {
-				w.fi.calls = append(w.fi.calls, callSite{callee: "iface:" + recvNamed.Obj().Name() + "." + fn.Name(), locks: w.copyHeld()})
+				w.fi.calls = append(w.fi.calls, callSite{callee: "iface:" + recvNamed.Obj().Name() + "." + fn.Name(), locks: w.copyHeld(), after: w.copySpawned()})
 			}
 		}
 		return
 	}
 	// package-level function of the repository
 	if obj, ok := info.Uses[sel.Sel].(*types.Func); ok && obj.Pkg() != nil && strings.HasPrefix(obj.Pkg().Path(), module) {
-		w.fi.calls = append(w.fi.calls, callSite{callee: relPkg(obj.Pkg()) + "." + obj.Name(), locks: w.copyHeld()})
+		w.fi.calls = append(w.fi.calls, callSite{callee: relPkg(obj.Pkg()) + "." + obj.Name(), locks: w.copyHeld(), after: w.copySpawned()})
 	}
 }
 
@@ -495,6 +500,7 @@ func (w *walker) node(n ast.Node) {
 			lw.node(f.Body)
 		}
 		gos = append(gos, w.fi.name+" -> "+callee)
+		w.spawned = append(w.spawned, callee)
 		for _, a := range v.Call.Args {
 			w.node(a)
 		}
@@ -752,6 +758,27 @@ func expand(name string, extra []lockHeld, seen map[string]bool, depth int, out 
 	}
 }
 
+// expandMain: the accesses main.main makes itself or through the functions it calls, each with the goroutines main had
+// already started when it got there (main's start-up section is ordered before a goroutine only by the go statement
+// that starts it)
+func expandMain(out *[]access) {
+	fi, ok := funcs["main.main"]
+	if !ok {
+		return
+	}
+	for _, a := range fi.accesses {
+		*out = append(*out, a)
+	}
+	for _, c := range fi.calls {
+		var sub []access
+		expand(c.callee, c.locks, map[string]bool{"main.main": true}, 1, &sub, "main.main")
+		for _, a := range sub {
+			a.after = c.after
+			*out = append(*out, a)
+		}
+	}
+}
+
 // which concrete types implement which repository interfaces (by name; kept explicit and small)
 var ifaceImpls = map[string][]string{
 	"MetricMapperCache": {"pkg/mappercache/lru.metricMapperLRUCache", "pkg/mappercache/randomreplacement.metricMapperRRCache"},
@@ -889,6 +916,39 @@ func main() {
 	sb.WriteString("\n].\n\n(* the same sites with the critical section (acquisition site) of every lock held *)\n")
 	sb.WriteString("Definition section_table : list (string * string * bool * list (string * bool * string)) := [\n")
 	sb.WriteString(strings.Join(srows, ";\n"))
+	sb.WriteString("\n].\n\n(* what main.main touches (itself or through calls): (location, is write, locks held, goroutines main had started before) *)\n")
+	sb.WriteString("Definition main_table : list (string * bool * list (string * bool) * list string) := [\n")
+	var macc []access
+	expandMain(&macc)
+	var mrows []string
+	mseen := map[string]bool{}
+	for _, a := range macc {
+		if a.send {
+			continue
+		}
+		var ls, af []string
+		for _, l := range a.locks {
+			ex := "false"
+			if l.mode == "W" {
+				ex = "true"
+			}
+			ls = append(ls, "("+coqStr(l.name)+", "+ex+")")
+		}
+		for _, g := range a.after {
+			af = append(af, coqStr(g))
+		}
+		wr := "false"
+		if a.write {
+			wr = "true"
+		}
+		row := fmt.Sprintf("  (%s, %s, [%s], [%s])", coqStr(a.loc), wr, strings.Join(ls, "; "), strings.Join(af, "; "))
+		if !mseen[row] {
+			mseen[row] = true
+			mrows = append(mrows, row)
+		}
+	}
+	sort.Strings(mrows)
+	sb.WriteString(strings.Join(mrows, ";\n"))
 	sb.WriteString("\n].\n\n(* go statements found: spawning function -> goroutine body *)\nDefinition go_statements : list (string * string) := [\n")
 	sort.Strings(gos)
 	var grows []string
